@@ -31,7 +31,7 @@ ASSUMPTIONS = [
     "environment variable names are derived from keys that start with 'ccv', so no real process variable is read",
 ]
 REQUIRED = ["var:unset", "var:empty", "var:valid", "var:invalid", "bound", "unbound", "op:load_tree", "op:loads", "op:assign",
-            "op:ctor", "depth:1", "depth:2", "depth:3"]
+            "op:ctor", "depth:1", "depth:2", "depth:3", "decl:chain", "decl:item"]
 LEVEL_TEXT = (
     "Exhaustive enumeration of the finite naming matrix plus generated kinds/values/histories against a reference "
     "naming function, a reference validator and a no-env twin; kills mutants in prefix joining, opt-out handling "
@@ -113,6 +113,7 @@ def strategy(tier):
         return st.fixed_dictionaries({
             "levels": st.lists(st.sampled_from(SCHEMA_ENVS), min_size=1, max_size=3), "fenv": st.sampled_from(FIELD_ENVS),
             "node": st.just(node), "var": var, "sibling_var": st.none(),
+            "decl": st.sampled_from(["explicit", "explicit", "chain", "item"]),
             "ops": st.lists(op, min_size=1, max_size=6),
         })
     return _field_node().flatmap(build)
@@ -132,8 +133,10 @@ def exhaustive(tier):
         for levels in itertools.product(SCHEMA_ENVS, repeat=depth):
             for fenv in FIELD_ENVS:
                 for var in (None, "", "42", "1000"):
-                    yield {"levels": list(levels), "fenv": fenv, "node": node, "var": var, "sibling_var": None,
-                           "ops": [{"op": "load_tree", "value": 7, "with_sibling": True}, {"op": "assign", "value": 9, "how": "setattr"}, {"op": "loads", "fmt": "json", "value": 11}]}
+                    decls = ("explicit", "chain", "item") if depth > 1 and all(env is None for env in levels[1:]) else ("explicit",)
+                    for decl in decls:
+                        yield {"levels": list(levels), "fenv": fenv, "node": node, "var": var, "sibling_var": None, "decl": decl,
+                               "ops": [{"op": "load_tree", "value": 7, "with_sibling": True}, {"op": "assign", "value": 9, "how": "setattr"}, {"op": "loads", "fmt": "json", "value": 11}]}
 
 
 def _build(cc, case, with_env):
@@ -143,11 +146,15 @@ def _build(cc, case, with_env):
     root = cc.Schema(env=levels[0] if with_env else None)
     schema = root
     path = []
+    decl = case.get("decl", "explicit")
+    if decl != "explicit" and any(env is not None for env in levels[1:]):
+        decl = "explicit"  # intermediate schemas that are created implicitly cannot carry an env option of their own
     for i, env in enumerate(levels[1:]):
         key = KEYS[i + 1]
-        sub = cc.Schema(env=env if with_env else None)
-        setattr(schema, key, sub)  # attach first (top-down), then descend
-        schema = sub
+        if decl == "explicit":
+            sub = cc.Schema(env=env if with_env else None)
+            setattr(schema, key, sub)  # attach first (top-down), then descend
+            schema = sub
         path.append(key)
     kw = {}
     d = node.get("default") or {"mode": "none"}
@@ -156,9 +163,20 @@ def _build(cc, case, with_env):
     if with_env:
         kw["env"] = case["fenv"]
     field = specs.build_field(cc, node, **kw)
-    setattr(schema, FKEY, field)
     sibling = cc.IntField(default=5)
-    setattr(schema, "ccvsib", sibling)
+    if decl == "chain" and path:
+        # root.k1.k2.field = ...: the intermediate schemas come into being through attribute access
+        for key in path:
+            schema = getattr(schema, key)
+        setattr(schema, FKEY, field)
+        setattr(schema, "ccvsib", sibling)
+    elif decl == "item" and path:
+        # root["k1.k2.field"] = ...: the intermediate schemas come into being inside the dotted-path assignment
+        root[".".join(path + [FKEY])] = field
+        root[".".join(path + ["ccvsib"])] = sibling
+    else:
+        setattr(schema, FKEY, field)
+        setattr(schema, "ccvsib", sibling)
     return root, tuple(path) + (FKEY,), field, sibling
 
 
@@ -182,7 +200,7 @@ def run_case(case, R):
     ctx = specs.ref_ctx()
     levels = case["levels"]
     depth = len(levels)
-    R.label("depth:%d" % depth, "kind:" + kind)
+    R.label("depth:%d" % depth, "kind:" + kind, "decl:" + (case.get("decl", "explicit") if depth > 1 and all(e is None for e in levels[1:]) else "explicit"))
     saved = {k: v for k, v in os.environ.items() if k.startswith("CCV")}
     for k in saved:
         del os.environ[k]
